@@ -6,6 +6,7 @@ import ast
 from typing import Any
 import copy
 
+from ..astutil import attr_writes
 from ..cfg import Node, cfg_of, node_calls, walk_own
 from ..closed import find_roles, resolver
 from ..flow import occurred_before
@@ -61,6 +62,20 @@ def run(ctx: Ctx) -> None:
     # what is sent / collected
     calls = [c for c in own_nodes(hl.node) if isinstance(c, ast.Call) and cx in res.callees(hl, c).funcs]
     ctx.require(len(calls) == 1, "_connect_hello_login: request call not unique")
+    # once the responses are in, nothing but the verdicts decides how the phase ends (the specific error, not some
+    # other one, is what the caller sees when the device's answer is unacceptable)
+    reqn = [n for n in g.reachable() if any(c is calls[0] for c in node_calls(n))]
+    for login_v, targets, what in ((True, hello_nodes, "hello verdict"), (False, hello_nodes, "hello verdict"), (True, login_nodes, "password verdict")):
+        early = []
+        for rn in reqn:
+            for lab, s0 in rn.succ:
+                if lab == "exc" or s0 in targets:
+                    continue
+                seen_ = walk(g, {"login": login_v}, cl, start=s0, blocked=set(targets))
+                early += [n for n in seen_ if n.kind == "stmt" and isinstance(n.ast, (ast.Raise, ast.Return))]
+                if g.exit in seen_ and not any(isinstance(n.ast, ast.Return) for n in seen_ if n.kind == "stmt"):
+                    early.append(g.exit)
+        ctx.ob("C06.R1", hl, f"after the responses arrived nothing ends the exchange before the {what} (login={login_v})", not early, f"leaves at {[(n.lineno, n.text(50)) for n in early[:3]]}: an unacceptable answer would be reported as some other error, or accepted")
     b = res.bind_args(cx, calls[0])
     msgs_v = _strip_tuple(b.get("messages"))
     types_v = _strip_tuple(b.get("msg_types"))
@@ -158,7 +173,7 @@ def run(ctx: Ctx) -> None:
     ctx.ob("C06.R1", hl, "first expected response is HelloResponse", bool(seq_t["msg_types"]) and bool(seq_f["msg_types"]) and seq_t["msg_types"][0] == seq_f["msg_types"][0] == "HelloResponse", f"login {seq_t['msg_types']}, no login {seq_f['msg_types']}")
     ctx.ob("C06.R1", hl, "connect request added iff login", seq_t["messages"] == ["hello-request", "connect-request"] and seq_f["messages"] == ["hello-request"], f"login {seq_t['messages']}, no login {seq_f['messages']}")
     ctx.ob("C06.R1", hl, "ConnectResponse added iff login", seq_t["msg_types"] == ["HelloResponse", "ConnectResponse"] and seq_f["msg_types"] == ["HelloResponse"], f"login {seq_t['msg_types']}, no login {seq_f['msg_types']}")
-    ctx.ob("C06.R1", hl, "request list is complete before it is sent", True, "the sequences are folded up to the request call")
+    ctx.note("request sequences are folded up to the request call: the list is complete before it is sent")
     # responses are taken in order
     rv = None
     for n in own_nodes(hl.node):
@@ -311,10 +326,46 @@ def run(ctx: Ctx) -> None:
         tries = [n for n in own_nodes(fn.node) if isinstance(n, ast.Try)]
         ctx.ob("C06.R4", fn, "verdict failures propagate (no handler between verdict and phase wrapper)", not tries, f"{len(tries)} try statement(s)")
     one_shot_c06(ctx, roles, fin)
+    live_configuration(ctx)
     # the request constants: protocol version the client announces
     hr = ctx.repo.func("connection", "_make_hello_request")
     kws = {kw.arg: ctx.sym.eval(kw.value, "connection") for n in own_nodes(hr.node) if isinstance(n, ast.Call) and norm(n.func) == "HelloRequest" for kw in n.keywords}
     ctx.ob("C06.R1", hr, "hello announces API major 1 with the client info", kws.get("api_version_major") == 1 and "client_info" in kws, f"{ {k: str(v) for k, v in kws.items()} }")
+
+
+def live_configuration(ctx: Ctx) -> None:
+    """"... equal to the expected name whenever one is configured": the verdicts read the connection's parameter
+    object, so what the application configures on the client (also between the two connect phases, and on a client
+    that reconnects) has to be that very object - bound once on each side, handed over by reference, updated in place."""
+    res = resolver(ctx)
+    cli = ctx.repo.cls("APIClient")
+    conn = ctx.repo.cls("APIConnection")
+
+    def binders(cls_, attr: str):
+        return [(f, st, val) for f in ctx.repo.all_funcs() if f.cls is not None and f.cls.key == cls_.key for st, tgt, val in attr_writes(f, attr) if norm(tgt.value) == "self"]
+
+    cattr = None
+    ci = conn.methods["__init__"]
+    cparams = [p for p in ci.param_names() if p != "self"]
+    for f, st, val in binders(conn, "_params"):
+        cattr = "_params"
+    ctx.require(cattr is not None and bool(cparams), "APIConnection: parameter object attribute not found")
+    bw = binders(conn, "_params")
+    ctx.ob("C06.R5", conn.methods["__init__"], "the connection binds its parameter object once, in __init__, to the object it was given", len(bw) == 1 and bw[0][0] is ci and isinstance(bw[0][2], ast.Name) and bw[0][2].id == cparams[0], f"{[(f.qualname, norm(v) if v is not None else None) for f, st, v in bw]}")
+    made = [(f, c) for f in ctx.repo.all_funcs() if f.cls is not None and f.cls.key == cli.key for c in own_nodes(f.node) if isinstance(c, ast.Call) and any(g.cls is conn and g.name == "__init__" for g in res.callees(f, c).funcs)]
+    ctx.ob("C06.R5", "client:APIClient", "connections are created from the client's own parameter object (by reference)", bool(made) and all(c.args and norm(c.args[0]) == "self._params" for f, c in made), f"{[(f.qualname, norm(c.args[0]) if c.args else None) for f, c in made]}")
+    cw = binders(cli, "_params")
+    ctx.ob("C06.R5", cli.methods["__init__"], "the client binds its parameter object once, in __init__ (later configuration changes update it in place)", bool(cw) and all(f.name == "__init__" for f, st, v in cw), f"rebound in {[f.qualname for f, st, v in cw if f.name != '__init__']}: a connection created earlier keeps checking the old object")
+    setters = [f for f in ctx.repo.all_funcs() if f.cls is cli and f.name == "expected_name" and any(norm(d).endswith(".setter") for d in f.node.decorator_list)]
+    ctx.ob("C06.R5", "client:APIClient.expected_name", "expected_name setter located", len(setters) == 1, f"{len(setters)}")
+    for f in setters:
+        vp = [p for p in f.param_names() if p != "self"][0]
+        ws = [(st, tgt, val) for st, tgt, val in attr_writes(f) if tgt.attr == "expected_name"]
+        ctx.ob("C06.R5", f, "the setter stores the new expected name into the shared parameter object", len(ws) == 1 and norm(ws[0][1].value) == "self._params" and ws[0][2] is not None and norm(ws[0][2]) == vp, f"{[(norm(t), norm(v) if v is not None else None) for st, t, v in ws]}")
+    # frozen / copied parameter objects cannot be updated in place
+    pcls = ctx.repo.cls("ConnectionParams")
+    frozen = any(isinstance(d, ast.Call) and any(k.arg == "frozen" and isinstance(k.value, ast.Constant) and k.value.value for k in d.keywords) for d in pcls.node.decorator_list)
+    ctx.ob("C06.R5", "connection:ConnectionParams", "the parameter object is mutable (not a frozen dataclass / tuple)", not frozen and not any(b.split(".")[-1] in ("NamedTuple", "tuple") for b in pcls.base_names), f"bases {pcls.base_names}")
 
 
 def one_shot_c06(ctx: Ctx, roles, fin: Func) -> None:
